@@ -114,13 +114,13 @@ func c06Scenarios(tier core.Tier) []scenario {
 	d := dd(tier)
 	orcs := func() []chain.Oracle { return []chain.Oracle{&chain.CrashOracle{}} }
 	return []scenario{
-		{Name: "c06.3way", Universe: "U-3way-honest", Depth: 4 + d, Orcs: orcs,
+		{Name: "c06.3way", Universe: "U-3way-honest", Depth: 5 + d, Orcs: orcs,
 			Menu: chain.Menu{Recv: true, Sync: true, Play: true, WalkSome: true, Submit: []string{"tS", "tA2", "tD2"}, Mine: 1, Truncate: true, Blocks: []string{"a1", "a2", "b1", "b2", "b3"}}},
-		{Name: "c06.kv", Universe: "U-kv", Depth: 4 + d, Orcs: orcs,
+		{Name: "c06.kv", Universe: "U-kv", Depth: 5 + d, Orcs: orcs,
 			Menu: chain.Menu{Recv: true, Sync: true, Play: true, WalkSome: true, Submit: []string{"pW1", "pR"}, Mine: 1, Blocks: []string{"k1", "k2", "k3", "j2"}}},
-		{Name: "c06.amt", Universe: "U-amt", Depth: 4 + d, Orcs: orcs,
+		{Name: "c06.amt", Universe: "U-amt", Depth: 5 + d, Orcs: orcs,
 			Menu: chain.Menu{Recv: true, Sync: true, Submit: []string{"sA", "sA2"}, Mine: 2, Truncate: true, Blocks: []string{"x1", "x2", "y1", "y2"}}},
-		{Name: "c06.prune", Universe: "U-3way-honest-w1", Depth: 4 + d, Orcs: orcs,
+		{Name: "c06.prune", Universe: "U-3way-honest-w1", Depth: 5 + d, Orcs: orcs,
 			Menu: chain.Menu{Recv: true, Sync: true, WalkSome: true, Prune: true, Blocks: []string{"a1", "a2", "a3", "b1", "b2"}}},
 	}
 }
@@ -130,6 +130,13 @@ func init() {
 	core.Register(&core.Check{ID: "C06", Run: func(t core.Tier) *core.Report {
 		rep := core.NewReport("C06", t, "fault_enumeration")
 		runScenarios(rep, c06Scenarios(t))
+		cs := &chain.CrashStats
+		rep.Set("evaluations", int(cs.Images))
+		rep.Set("distinct_nontrivial", int(cs.Distinct))
+		rep.Set("rule", "cases = for every transition the explorer takes (every event of every explored history: block arrival, sync walk, walk to any block, play, submit, mine, truncate, prune), every prefix 0..n of the storage writes (single puts and atomic batches, across the ledger and the state database, in issue order) that the event made: the node is reopened on base image + prefix and judged (ledger structure, state = replay of its own chain, conservation, then synchronisation to the ledger tip). A case is non-trivial when the prefix ends strictly inside the event (0 < k < n: some of the event's writes are durable, the rest lost); distinct = distinct (event kind, normalised write prefix) among those. A write is atomic (leveldb batch / put granularity): torn batches are outside the model")
+		rep.Set("crash_events_enumerated", int(cs.Events))
+		rep.Set("storage_writes_logged", int(cs.Writes))
+		rep.Set("crash_images_mid_event", int(cs.MidImages))
 		return rep
 	}, Replay: replayScenario(append(c06Scenarios(core.Quick), c06Scenarios(core.Thorough)...))})
 }
